@@ -1,6 +1,5 @@
 import LunarVerif.Base.Proto
 import LunarVerif.Spec.C16
-import LunarVerif.Model.C16Fix
 /-!
 Driver for C16: `lvdriver_c16 run` (model outputs) / `lvdriver_c16 judge` (Spec on impl outputs).
 
@@ -174,22 +173,16 @@ def fmtOutcome : Outcome → String
   | .empty => "empty"
   | .other => "other"
 
-/-- `fixed = true` (environment `VERIF_C16_MODEL=fixed`) answers with the model of the PROPOSED patch
-    (`Model/C16Fix.lean`) instead of the model of the code as it is; used only to try the patch in a
-    scratch worktree. -/
-def answer (fixed : Bool) (o : Op) : String :=
-  match fixed, o.doc with
-  | true, some d => fmtOutcome (.doc (obfuscateBodyFixed Hm o.side o.ex d))
-  | _, _ => fmtOutcome (run Hm o.side o.ex (input o))
+def answer (o : Op) : String := fmtOutcome (run Hm o.side o.ex (input o))
 
-def runStep (fixed : Bool) (line : String) : Bool × String :=
+def runStep (_ : Unit) (line : String) : Unit × String :=
   match words line with
-  | ["case", id] => (fixed, s!"case {id}")
+  | ["case", id] => ((), s!"case {id}")
   | "obf" :: ws =>
     match parseOp ws with
-    | some o => (fixed, answer fixed o)
-    | none => (fixed, "bad-op")
-  | _ => (fixed, "bad-op")
+    | some o => ((), answer o)
+    | none => ((), "bad-op")
+  | _ => ((), "bad-op")
 
 structure JudgeSt where
   known : Option String := none     -- first failure that falls in the class of a listed finding
@@ -244,9 +237,8 @@ def judgeFinish (s : JudgeSt) : String :=
 
 end C16Drv
 
-def main (args : List String) : IO Unit := do
-  let fixed := (← IO.getEnv "VERIF_C16_MODEL") == some "fixed"
+def main (args : List String) : IO Unit :=
   match args with
-  | ["run"] => runLoop C16Drv.runStep fixed
+  | ["run"] => runLoop C16Drv.runStep ()
   | ["judge"] => judgeLoop ({} : C16Drv.JudgeSt) C16Drv.judgeStep C16Drv.judgeFinish
   | _ => IO.eprintln "usage: lvdriver_c16 run|judge"
